@@ -1,5 +1,6 @@
 """C14: every diagnostic points at a real source line and carries a coherent flow (partial: file system and
 drivers are outside the model)."""
+import os
 import random
 
 from . import common
@@ -43,7 +44,7 @@ def run(ctx):
 
     rng = random.Random(ctx.seed + 5)
     mods = ds.collect_modules(ctx, rng, 2 if ctx.tier == "quick" else 12)
-    wbad, ndiag = [], 0
+    wbad, ndiag, ndep = [], 0, 0
     try:
         for d, _ in mods:
             for full in ("false", "true"):
@@ -52,11 +53,12 @@ def run(ctx):
                     wbad.append("run failed: %s" % err)
                     continue
                 ndiag += len(r["diags"] or [])
+                ndep += sum(1 for g in r["diags"] or [] if not g["pkg"].endswith(os.path.dirname(g["file"])))
                 for b in ds.coherence_oracle(d, r["diags"] or [], full == "true"):
                     wbad.append("print-full-file-path=%s, module %s: %s" % (full, d, b))
     finally:
         ds.cleanup(mods)
-    ctx.obligation("whole tool: %d diagnostics of %d modules (both path-printing modes): valid position on an existing line, >= 1 flow step, every file:line:col resolves, last step = reported position" % (ndiag, len(mods)), ndiag > 0 and not wbad)
+    ctx.obligation("whole tool: %d diagnostics of %d modules (both path-printing modes): valid position on an existing line, >= 1 flow step, every file:line:col resolves, last step = reported position; %d of them are located in a dependency's file" % (ndiag, len(mods), ndep), ndiag > 0 and ndep > 0 and not wbad)
     ctx.coverage.update({"evaluations": len(res["cases"]) + ndiag, "distinct_nontrivial": len(set(c.line() for c in res["cases"])),
                          "rule": "synthetic conflict sets (positions in files the file set does not contain, some beyond line 65536) and real diagnostics of generated/hand-written modules; distinct by case line"})
     ctx.assumptions.append("partial: the in-process checker driver only; the go vet driver drops findings located in a dependency's file (finding F12, recorded under C03); the file system is not modelled")
